@@ -175,7 +175,16 @@ def runOp (op : String) (fields : List String) (impl : String) : Option Verdict 
     let s ← Bytes.ofHex h
     -- oracle (unpruned walks only): the implementation's trace against the nodes of the tree
     let oracle : List String :=
-      if mask != "-" then []
+      if impl == "HANG" then ["c12-hang"]
+      else if impl.startsWith "PANIC" then ["c12-panic"]
+      else if mask != "-" then
+        let r := parse s
+        match impl.splitOn " ;; " with
+        | _ :: traces =>
+          if traces.length != r.1.length then []
+          else (r.1.zip traces).flatMap fun (st, tr) =>
+            WalkOracle.prunedClauses st.dump tr mask ++ (if (tr.splitOn " ").contains "PANIC" then ["c12-panic"] else [])
+        | [] => []
       else if impl == "HANG" then ["c12-hang"]
       else if impl.startsWith "PANIC" then ["c12-panic"]
       else
